@@ -350,6 +350,33 @@ func main() {
 				w.Emit(vt.Ev{"e": "Hang", "what": "PublishIPFIXMessages does not take messages"})
 			}
 		}
+		// a message whose header and records are all protobuf defaults (time 0, sequence 0, domain 0, no address, zero
+		// ports): still one Kafka message per record, with an empty payload behind the length prefix
+		{
+			evals++
+			m := entities.NewMessage(true)
+			m.SetExportTime(0)
+			m.SetSequenceNum(0)
+			m.SetObsDomainID(0)
+			m.SetExportAddress("")
+			set := entities.NewSet(true)
+			set.PrepareSet(entities.Data, 256)
+			recs := []any{}
+			for k := 0; k < 2; k++ {
+				els := []entities.InfoElementWithValue{entities.NewUnsigned8InfoElement(ie("protocolIdentifier", 0), 0),
+					entities.NewUnsigned16InfoElement(ie("sourceTransportPort", 0), 0)}
+				set.AddRecordV2(els, 256)
+				recs = append(recs, recAbs{Nums: map[string]int{"protocolIdentifier": 0, "sourceTransportPort": 0}, Strs: map[string][]int{}})
+			}
+			m.AddSet(set)
+			abs := vt.Ev{"time": 0, "seq": 0, "dom": 0, "addr": sb(""), "kind": "data", "recs": recs}
+			w.Emit(vt.Ev{"e": "Publish", "m": abs})
+			select {
+			case msgCh <- m:
+			case <-time.After(5 * time.Second):
+				w.Emit(vt.Ev{"e": "Hang", "what": "PublishIPFIXMessages does not take messages"})
+			}
+		}
 		dist[h.Sum64()] = true
 		close(msgCh)
 		select {
